@@ -5,6 +5,7 @@
 # coq/models/Cache.v (replay of every faketime trial's log). Vehicles: cooperative scheduler over
 # the cachex yield points; faketime bursts + watchdog.
 import json
+import os
 
 from . import common, pure
 from . import cache_common as cc
@@ -226,6 +227,23 @@ def run(chk):
                     if mf:
                         chk.monitor_fail("future-unresolved-after-cache-dropped" if mf[0] == "hang" else mf[0], sc.line(), log.text[:3000],
                                          "the script drops its last reference to the cache after a burst of Loads and keeps the Futures: " + mf[1])
+            # platform dependence: a sample of the burst scripts in a single-P process (GOMAXPROCS=1), monitors only: whatever
+            # the library derives from the number of processors, every call must still return and every Future resolve
+            onep = [sc for sc in streams[1][1][:12]] + [sc for sc in streams[2][1][:6]]
+            for sc in onep:
+                chk.count_case("single-P-process", sc.line(), True)
+            try:
+                for sc, whole in zip(onep, cc.run_ft(binary, [sc.line() for sc in onep], env=dict(os.environ, GOMAXPROCS="1"))):
+                    if whole.startswith("PANIC"):
+                        chk.monitor_fail("panic", sc.line() + "  [GOMAXPROCS=1]", whole[:500], whole[:300])
+                        continue
+                    for log in cc.split_trials(whole):
+                        mf = cc.monitor_liveness(sc, log)
+                        if mf:
+                            chk.monitor_fail(mf[0], sc.line() + "  [GOMAXPROCS=1]", log.text[:3000], mf[1] + " (process with GOMAXPROCS=1)")
+            except common.ImplCrash as e:
+                chk.monitor_fail("hang", "sample of %d burst scripts with GOMAXPROCS=1" % len(onep), str(e)[-400:],
+                                 "the burst scripts did not finish in a single-P process: " + str(e)[-200:])
             allres = []
             for name, scripts in streams:
                 res = cc.check_batch(chk, binary, name, scripts, monitor_c06, feed_sweeps=lambda si, ti: ti % 2 == 1,
